@@ -10,7 +10,7 @@ from vlib import rt, gen, fml, solvergen
 from vlib.gen import chance, pick
 
 ID = "C01"
-CASES = {"quick": 200, "thorough": 6000}
+CASES = {"quick": 320, "thorough": 6000}
 SOFT = 25
 HARD = 90
 SOLVER_TIMEOUT = 5
@@ -67,10 +67,16 @@ def generate(rnd, tier):
     trees = [gen.tree(rnd, cgr, "<start>", rnd.randint(2, 6), rt.min_depths(cgr), bias=0.8) for _ in range(4)]
     lits = fml.sample_lits(cgr, trees)
     tname, f = solvergen.template(rnd, cgr, lits, name if not start else None, prefer=start)
-    if chance(rnd, 0.25):
+    if chance(rnd, 0.3):
         # two independent templates side by side: what one conjunct makes the solver do to the tree (insert, embed,
-        # expand) must not invalidate what was already established for the other
-        n2, f2 = solvergen.template(rnd, cgr, lits, name if not start else None, prefer=start)
+        # expand, replace a subtree by a parsed SMT value) must not invalidate what was already established for the
+        # other; half of the pairs put a tree-shaping conjunct (count, str.to.int) next to a node-constraining one
+        only2 = None
+        if chance(rnd, 0.5):
+            tname, f = solvergen.template(rnd, cgr, lits, name if not start else None, prefer=start,
+                                          only={"count_lit", "count_numq", "toint", "toint_arith", "forall_len"})
+            only2 = {"exists_eq", "exists_len", "forall_eq", "forall_neq", "mexpr_children", "nested_in_smt"}
+        n2, f2 = solvergen.template(rnd, cgr, lits, name if not start else None, prefer=start, only=only2)
         f = [pick(rnd, ["and", "and", "and", "or"]), solvergen.rename_bound(f, "a"), solvergen.rename_bound(f2, "b")]
         tname = "conj(%s,%s)" % (tname, n2)
     st = solvergen.settings(rnd)
